@@ -93,7 +93,8 @@ class SyncRunner:
                         "streams": [_sid(d["ens"]["rgen"]) for d in picked.values()],
                         "eng_streams": [_sid(d["rgen-eng"]) for d in picked.values()],
                         "slots_ok": slots_ok,
-                        "locked": [[[int(e) for e in es], [str(p) for p in ps]] for es, ps in st.locked],
+                        "locked": [[[int(e) for e in ent[0]], [str(p) for p in ent[1]],
+                                    (int(ent[2]) if len(ent) > 2 else None)] for ent in st.locked],
                         "locked0_left": len(st.locked0)})
         md_in = pickle.loads(pickle.dumps(md))
         out = self.task(md_in)
